@@ -17,13 +17,13 @@ from .common import REPO
 DRIVER = 'c01'
 
 RULE = (
-	'for every keyed array found in the IR of both networks and of state/restriction_mosaic_entry.cats: multisets of 2-5 (thorough: -7) keys drawn '
+	'for every keyed array found in the IR of both networks and of state/restriction_mosaic_entry.cats and state/namespace_history.cats (whose key is itself a list: the empty list, prefixes, equal heads): multisets of 2-5 (thorough: -7) keys drawn '
 	'from a palette with equal keys, keys differing only in high bytes, 0 and maximal values, byte keys with shared prefixes; every permutation '
 	'(sampled above 120); for each: sort() result, idempotence, order independence, serialize() of sorted/unsorted/duplicated arrays, deserialize() '
 	'of byte strings with permuted or duplicated element chunks; plus sort() of every enclosing value that holds such an array one level down through a struct-typed member '
 	'(NEM multisig transaction -> inner modification transaction). distinct = (array, key sequence); all non-trivial.')
 TRUSTED_BASE = c01.TRUSTED_BASE + ['ripemd_keccak_256 transform: native Lean RIPEMD-160/Keccak in the driver, hashlib + sha3 stand-in in the oracle']
-ASSUMPTIONS = ['state entries other than mosaic restrictions cannot be compiled by the Python generator (util.py crashes on arrays of aliases in unaligned structs) and are covered by the theorems only']
+ASSUMPTIONS = ['state entries: mosaic restrictions and namespace history (the two with keyed arrays) are compiled by the real generator on every run; account_state.cats has a literal array count, which the IR does not express']
 
 
 def keyed_arrays(net):
@@ -96,6 +96,18 @@ class KeyedArrayCheck:
 		elif 'int' == kind['k']:
 			palette = key_palette(rng, kind['w'])
 			slot[1] = str(palette[choice % len(palette)])
+		elif 'array' == kind['k']:
+			# a key that is itself a list (namespace paths): the empty list, prefixes of one another, equal heads
+			shapes = [[], [0], [0, 0], [0, 1], [1], [1, 0], [2], [0, 0, 0], [3, 3], [1, 0, 0], [4], [0, 2]]
+			items = []
+			for part in shapes[choice % len(shapes)]:
+				typedef = self.net.types[kind['elem']]
+				if 'int' == typedef['k']:
+					top = (1 << (8 * typedef['w'])) - 1
+					items.append(str([0, 1, top, 256, 1 << (8 * typedef['w'] - 8)][part]))
+				else:
+					raise ValueError(f'list key with elements of kind {typedef["k"]}')
+			slot[1] = items
 		return element
 
 	def swap_keys(self, first, second):
@@ -233,8 +245,19 @@ class KeyedArrayCheck:
 				duplicated = list(range(length))
 				duplicated[rng.randrange(1, length)] = duplicated[0]
 				variants.append((b''.join(chunks[index] for index in sorted(duplicated)), False, 'duplicated'))
+				# entries of different sizes (list keys): a rearrangement may change the length of the region; that still is a
+				# candidate encoding when nothing in the struct measures bytes (only the element count is written)
+				measures_bytes = any(other['kind']['k'] in ('sizeF', 'sizeRef', 'sizeOf', 'byteSize') for other in net.types[self.type_name]['fields']) \
+					or 'sized' == self.field['kind']['mode']['m']
+				equal_pairs = [(first, second) for first in range(length) for second in range(length) if first != second]
+				for first, second in rng.sample(equal_pairs, min(3, len(equal_pairs))):
+					# every entry replaced by a copy of one of them: all keys equal (also when that key is the smallest / empty one)
+					variants.append((b''.join(chunks[first] for _ in range(length)), False, 'all-equal'))
+					variants.append((b''.join(chunks[first] if index == second else chunks[index] for index in range(length)), False, 'one-duplicated'))
 				for region_bytes, acceptable, kind in variants:
-					if len(region_bytes) != len(region):
+					if len(region_bytes) != len(region) and measures_bytes:
+						continue
+					if 'one-duplicated' == kind and region_bytes == region:
 						continue
 					mutated = data[:start] + region_bytes + data[start + len(region):]
 					status, decoded, _ = self.engine.impl_decode(self.type_name, mutated)
@@ -329,29 +352,35 @@ def nested_sort(ctx, net, engine, type_name, field, rounds):
 			ctx.fail('corr', f'{label}: model and implementation differ on sort of the enclosing value', dict(ident, model=answer[:300], implementation=expected[:300]))
 
 
-def state_network(ctx):
-	"""Mosaic-restriction state entries, compiled by the real generator."""
+STATE_ROOTS = ['restriction_mosaic_entry.cats', 'namespace_history.cats']
+
+
+def state_networks(ctx):
+	"""State entries with keyed arrays (mosaic restrictions, namespace history), compiled by the real generator."""
 	base = os.path.join(REPO, 'catbuffer', 'schemas', 'symbol')
-	root = os.path.join(base, 'state', 'restriction_mosaic_entry.cats')
-	package = genmod.ScratchPackage(ctx.tmpdir(), f'scratch_c12_{os.getpid()}_{len(os.listdir(ctx.tmpdir()))}')
-	module, proc = package.generate('state', root, base)
-	if module is None:
-		ctx.notes.append('state/restriction_mosaic_entry.cats is not compiled by the generator: ' + proc.stderr[-200:])
-		return None
-	schema, _ = cats.load_schema(root, base)
-	return codec.Network('state', schema=schema, module=module)
+	result = []
+	for number, file_name in enumerate(STATE_ROOTS):
+		root = os.path.join(base, 'state', file_name)
+		package = genmod.ScratchPackage(ctx.tmpdir(), f'scratch_c12_{os.getpid()}_{len(os.listdir(ctx.tmpdir()))}_{number}')
+		label = 'state' if 0 == number else 'state_' + file_name.split('.')[0]
+		module, proc = package.generate(label, root, base)
+		if module is None:
+			ctx.notes.append(f'state/{file_name} is not compiled by the generator: ' + proc.stderr[-200:])
+			continue
+		try:
+			schema, _ = cats.load_schema(root, base)
+		except cats.Unsupported as ex:
+			ctx.notes.append(f'state/{file_name} outside the modelled dialect: {ex}')
+			continue
+		result.append(codec.Network(label, schema=schema, module=module))
+	return result
 
 
 def run(ctx):
 	networks = []
 	for name in ('symbol', 'nem'):
 		networks.append(codec.Network(name))
-	try:
-		state = state_network(ctx)
-		if state is not None:
-			networks.append(state)
-	except cats.Unsupported as ex:
-		ctx.notes.append(f'state schema outside the modelled dialect: {ex}')
+	networks += state_networks(ctx)
 	total = 0
 	for net in networks:
 		engine = c01.Engine(ctx, net, 'C12')
